@@ -9,19 +9,19 @@ VERIF = os.path.dirname(os.path.dirname(os.path.abspath(__file__)))
 E1 = "E1 deviation-bounded exploration of environment answers"
 CHECKS = {
     "C01": dict(engine="E4 (E1, zero deviations)", level="exploration", technique="bounded-exhaustive enumeration of identifier lists / key types / digests / kp_reuse / subject-attribute subsets through full issuances against a strict CA with an independent DER walker",
-                text="Every ordered selection of 1..2 (quick) / 1..3 (thorough) of 13 identifier shapes plus two 8-entry lists, 7 key types x 3 digests x 4 kp_reuse situations, every subject attribute alone / none / all through the real flow, and every subset of the 15 attributes (32 768 in thorough) on the real CSR builder. The CA compares newOrder and the CSR (own DER parser, OpenSSL self-signature check) with literal expected canonical forms; the key file is compared with the CSR key after success. Also: a usable pre-existing key of another key type at the key path (the signature algorithm must follow the certified key).",
+                text="Every ordered selection of 1..2 (quick) / 1..3 (thorough) of 13 identifier shapes plus two 8-entry lists, 7 key types x 3 digests x 4 kp_reuse situations, every subject attribute alone / none / all through the real flow, and every subset of the 15 attributes (32 768 in thorough) on the real CSR builder. The CA compares newOrder and the CSR (own DER parser, OpenSSL self-signature check) with literal expected canonical forms; the key file is compared with the CSR key after success. Also: a usable pre-existing key of another key type at the key path (the signature algorithm must follow the certified key). Orders whose authorizations are partly or wholly valid already (re-used authorizations) are part of the grid.",
                 note="Dimensions are explored as a sum, not a product (they reach the CSR builder as independent arguments). Expected canonical forms are literals in vlib/props/c01.py.", ref="4/C01"),
     "C02": dict(engine="E3+E1", level="model_checking", technique="explicit enumeration of all write histories per file type through the real storage functions + issuance histories with varying chain/key lengths",
-                text="All write histories of depth 3 (quick) / 4 (thorough) over four contents of different lengths per file type, from {absent, empty, longer garbage}: after every write, read at the moment the storage function returns, the file equals what was written (accounts: length of a fresh save + load-back equality). 1..3 consecutive issuances with chain lengths {1..4}^k and alternating key types into the same two paths: certificate file = served body, key file = CSR key. Write histories also start from a symbolic link to a longer file and from a dangling link; issuances also run into paths that already hold an existing pair, another client's pair (secp256k1, RSA-3072), a truncated or an empty key file, with kp_reuse off and on. Write histories also contain writes under a 2048-byte file size limit: a write(2) that cannot complete must be reported.",
+                text="All write histories of depth 3 (quick) / 4 (thorough) over four contents of different lengths per file type, from {absent, empty, longer garbage}: after every write, read at the moment the storage function returns, the file equals what was written (accounts: length of a fresh save + load-back equality). 1..3 consecutive issuances with chain lengths {1..4}^k and alternating key types into the same two paths: certificate file = served body, key file = CSR key. Write histories also start from a symbolic link to a longer file and from a dangling link; issuances also run into paths that already hold an existing pair, another client's pair (secp256k1, RSA-3072), a truncated or an empty key file, with kp_reuse off and on. Write histories also contain writes under a 2048-byte file size limit: a write(2) that cannot complete must be reported. Chains are also served with CRLF line ends, without a final end of line, with a trailing blank line and with text between the blocks.",
                 note="Files are real files in a tmpfs scratch directory; account byte equality is not demanded (HashMap order).", ref="4/C02"),
     "C03": dict(engine="E1", level="model_checking", technique="stateless exhaustive exploration of CA fault answers (deviation-bounded), real daemon loop under a controlled environment",
-                text="Every single CA/network fault (full alphabet per request kind) at every request position of an issuance, with and without an installed pair and kp_reuse; thorough: every pair of faults over a reduced alphabet and every triple over {badNonce, cut}. The file-state oracle is evaluated at every attempt end and after the loop is dropped. Right level: the property quantifies over fault sequences of one short request history, which is finite once the alphabet is fixed. Also: pre-existing pairs whose key file the daemon cannot load (foreign curve, RSA-3072, truncated, empty; kp_reuse on) and two consecutive attempts of one daemon process with a fault in either. Also default runs under three file size limits (an attempt reported successful must have installed a consistent pair).",
+                text="Every single CA/network fault (full alphabet per request kind) at every request position of an issuance, with and without an installed pair and kp_reuse; thorough: every pair of faults over a reduced alphabet and every triple over {badNonce, cut}. The file-state oracle is evaluated at every attempt end and after the loop is dropped. Right level: the property quantifies over fault sequences of one short request history, which is finite once the alphabet is fixed. Also: pre-existing pairs whose key file the daemon cannot load (foreign curve, RSA-3072, truncated, empty; kp_reuse on) and two consecutive attempts of one daemon process with a fault in either. Also default runs under three file size limits (an attempt reported successful must have installed a consistent pair). The certificate alphabet contains a sound leaf followed by a truncated or garbage later block; every request kind's alphabet contains status codes without a registered reason phrase (529, 520).",
                 note="Trusted: the mock CA (probe/ca.rs), OpenSSL for parsing the files, the answer alphabet of vlib/e1.py. Key bytes are not owned.", ref="4/C03"),
     "C04": dict(engine="E1+E4", level="model_checking", technique="exhaustive nonce-answer exploration (bound 2) + key-type/flow grid + signature shape cells, every POST judged by an independent strict JWS verifier",
                 text="Every POST of every explored execution is checked by the CA's own JWS verifier (shape, url, nonce issued/fresh, jwk/kid discipline, alg, signature with fixed-width ECDSA, key-change inner/outer, external binding MAC). Explored: all sequences of <=2 nonce-relevant environment answers over two attempts; 7 key types x flows; 49 roll-overs; ECDSA shape cells witnessed by looping the real sign function. Also a flow with two key-type changes and a restart but no renewal in between (the roll-over must be authorised by the key the CA holds).",
                 note="Trusted: probe/cryptoutil.rs (own base64url/RFC 7638, OpenSSL verify primitives). ECDSA nonces are not owned; cell coverage is enforced, not sampled.", ref="4/C04"),
     "C05": dict(engine="E1", level="model_checking", technique="exhaustive enumeration of identifier/challenge assignments and of the CA's legitimate answers (authorization order, offered challenge subsets, statuses, tokens), judged from the hook recorder and the CA log",
-                text="All ordered identifier lists of size 1..2 (quick) / 1..3 (thorough) over {name, its wildcard, second name, IPv4, IPv6} x every challenge assignment; on two base sets every authorization order, every ordered non-empty subset of offered challenge types, each of 6 initial statuses per identifier, 5 token shapes, 7 account key types, challenge hook exit 0/1. Oracle: hooks of the type configured for the authorization's identifier (wildcard entry for wildcard authorizations), proof values recomputed independently from token and JWK thumbprint, challenge POST only after successful hooks, no hook for non-pending authorizations. Also: several accounts (2, 3; 7 key types) in one daemon process, challenge hooks ending with exit 255 or killed by signal 9/15; hooks are attributed to authorizations by the values they receive, not by request order; a scenario without a legitimate reason to stop must succeed.",
+                text="All ordered identifier lists of size 1..2 (quick) / 1..3 (thorough) over {name, its wildcard, second name, IPv4, IPv6} x every challenge assignment; on two base sets every authorization order, every ordered non-empty subset of offered challenge types, each of 6 initial statuses per identifier, 5 token shapes, 7 account key types, challenge hook exit 0/1. Oracle: hooks of the type configured for the authorization's identifier (wildcard entry for wildcard authorizations), proof values recomputed independently from token and JWK thumbprint, challenge POST only after successful hooks, no hook for non-pending authorizations. Also: several accounts (2, 3; 7 key types) in one daemon process, challenge hooks ending with exit 255 or killed by signal 9/15; hooks are attributed to authorizations by the values they receive, not by request order; a scenario without a legitimate reason to stop must succeed. Authorizations listing two challenges of each type (different tokens) are part of the grid: every answered challenge needs a hook run that carried its own token.",
                 note="Proof values are recomputed in Python (hashlib) from the CA's token and its own RFC 7638 thumbprint.", ref="4/C05"),
     "C10": dict(engine="E1", level="model_checking", technique="exhaustive enumeration of hook-list shapes x single hook failures, compared with a reference trace predictor",
                 text="Every hook list of <=2 (quick) / <=3 (thorough) top-level entries over 8 hooks (type palette incl. multi-typed) and 4 groups (nested, duplicate), allow_failure unset/true, first issuance + renewal, default run plus every single hook invocation exiting 1; colliding environment variables at four levels; stdin_str, stdin file, stdout/stderr templates; all three challenge types; an overlap probe. The recorder log must equal the predicted trace (order, types, variables, environment precedence, create/edit bracketing, clean hooks). Hook failures in the second scenario family also as exit 255 and signal 9; the env template variable must include a variable set only in the daemon's environment.",
@@ -63,7 +63,7 @@ CHECKS = {
                 text="Every single fault (CA alphabet + hook exits 1/2/126/SIGKILL) at every choice point of three consecutive attempts; thorough: every pair over the reduced alphabet. Oracles: no panic, no hang, post-operation hooks exactly once with a truthful verdict, >= 1 s (virtual) between a failed attempt and the next. Variants: no pair / existing pair, kp_reuse off / on (incl. kp_reuse with no key on disk). Non-interference: 1..6 certificates sharing account and endpoint with any number failing permanently.",
                 note="Time is tokio's virtual clock (the guard zeroes two thread::sleep constants, counts untouched). Multi-certificate runs do not control task order.", ref="4/C07"),
     "C08": dict(engine="E1", level="model_checking", technique="exhaustive run-length scripts of error answers at every POST position, judged on the CA's transmission log",
-                text="Every POST position x 26 error types x run lengths of consecutive errors (quick {1,2,9,10,11}, thorough 1..12), 5 status codes, non-problem error bodies, recoverable errors without a Replay-Nonce header, conforming bodies under status 300/304/600, polled objects that become valid at poll 1..41. Oracle per logical request: retried iff recoverable, <=10 transmissions, newest nonce, same content, <=20 polls, never a false success. Also accountDoesNotExist on every newOrder while the account file cannot be stored (must stay bounded).",
+                text="Every POST position x 26 error types x run lengths of consecutive errors (quick {1,2,9,10,11}, thorough 1..12), 5 status codes, non-problem error bodies, recoverable errors without a Replay-Nonce header, conforming bodies under status 300/304/600, polled objects that become valid at poll 1..41. Oracle per logical request: retried iff recoverable, <=10 transmissions, newest nonce, same content, <=20 polls, never a false success. Also accountDoesNotExist on every newOrder while the account file cannot be stored (must stay bounded). Recoverable errors whose media type carries a parameter or is spelled in another case are part of the run-length scripts.",
                 note="Trusted: the CA log. accountDoesNotExist on newOrder/update/keyChange is a legitimate flow judged by C11.", ref="4/C08"),
 }
 
